@@ -134,6 +134,53 @@ func registerModels2(e *Engine) {
 		}
 	}
 
+	// atomic.Value: the stored interface value lives in the struct's first field
+	avField := func(a Val) PtrVal {
+		p := a.(PtrVal)
+		if p.obj == 0 {
+			abort("panic", "nil *atomic.Value")
+		}
+		return PtrVal{obj: p.obj, path: append(append([]int(nil), p.path...), 0)}
+	}
+	avGet := func(st *State, f PtrVal) Val {
+		v := rawGet(st, f)
+		if v == nil {
+			return IfaceVal{}
+		}
+		return v
+	}
+	ic["(*sync/atomic.Value).Load"] = func(e *Engine, st *State, fr *Frame, in ssa.CallInstruction, a []Val) Val {
+		if e.atomicSched(st) {
+			return pushedMarker
+		}
+		f := avField(a[0])
+		v := avGet(st, f)
+		e.atomicEvent(st, f)
+		return v
+	}
+	ic["(*sync/atomic.Value).Store"] = func(e *Engine, st *State, fr *Frame, in ssa.CallInstruction, a []Val) Val {
+		if e.atomicSched(st) {
+			return pushedMarker
+		}
+		if iv, ok := a[1].(IfaceVal); ok && iv.t == nil {
+			abort("panic", "sync/atomic: store of nil value into Value")
+		}
+		f := avField(a[0])
+		rawSet(st, f, a[1])
+		e.atomicEvent(st, f)
+		return nil
+	}
+	ic["(*sync/atomic.Value).Swap"] = func(e *Engine, st *State, fr *Frame, in ssa.CallInstruction, a []Val) Val {
+		if e.atomicSched(st) {
+			return pushedMarker
+		}
+		f := avField(a[0])
+		old := avGet(st, f)
+		rawSet(st, f, a[1])
+		e.atomicEvent(st, f)
+		return old
+	}
+
 	// ----- math/big.Int, further methods (192-bit two's complement model)
 	zero := func() *Term { return bigConst(big.NewInt(0)) }
 	abs := func(x *Term) *Term { return Ite(bigIsNeg(x), BvNeg(x), x) }
